@@ -375,7 +375,8 @@ func (p *Process) waitUntilReady() bool {
 		return true
 	}
 	log.Error().Msgf("Process %s was aborted and won't become ready", p.getName())
-	p.setExitCode(1)
+	// the exit code of this process is the one of its command: a dependent
+	// that waited in vain must not overwrite it
 	return false
 
 }
